@@ -10,19 +10,24 @@ E == TraceLog[l]
 Rng(s) == {s[i] : i \in DOMAIN s}
 Cur(ev) == l <= Len(TraceLog) /\ E.ev = ev /\ l' = l + 1
 \* everything stored when DeleteTopic was exercised: the keys of all names accepted by that store
-EtcdUniverse == UNION {Rng(TraceLog[i].etcd) : i \in {j \in DOMAIN TraceLog : TraceLog[j].accBy.etcd}}
-MemUniverse == UNION {Rng(TraceLog[i].mem) : i \in {j \in DOMAIN TraceLog : TraceLog[j].accBy.mem}}
-MemCUniverse == UNION {Rng(TraceLog[i].memc) : i \in {j \in DOMAIN TraceLog : TraceLog[j].accBy.mem}}
+EtcdUniverse == UNION {Rng(TraceLog[i].etcd) : i \in {j \in DOMAIN TraceLog : TraceLog[j].inStore.etcd}}
+MemUniverse == UNION {Rng(TraceLog[i].mem) : i \in {j \in DOMAIN TraceLog : TraceLog[j].inStore.mem}}
+MemCUniverse == UNION {Rng(TraceLog[i].memc) : i \in {j \in DOMAIN TraceLog : TraceLog[j].inStore.mem}}
 TInit == Init /\ l = 1 /\ TLCSet(7, 0)
 TName == /\ Cur("Name") /\ UNCHANGED vars
          /\ LET k == KeysOf(E.segs) IN
             /\ E.name = k.name
-            /\ \A path \in DOMAIN E.accBy : E.accBy[path] = k.acc
+            /\ E.acc = k.acc
+            \* auto-creation paths ask for a positive partition count; explicit creation is probed with every count of Counts
+            /\ \A path \in DOMAIN E.accBy : E.accBy[path] = AcceptsWith(E.segs, 2)
+            /\ \A path \in DOMAIN E.accCnt : /\ Len(E.accCnt[path]) = Len(Counts)
+                                               /\ \A i \in DOMAIN Counts : E.accCnt[path][i] = AcceptsWith(E.segs, Counts[i])
+            /\ E.inStore.mem = k.acc /\ E.inStore.etcd = k.acc
             /\ Rng(E.s3) = k.s3 /\ Rng(E.s3pre) = k.s3pre /\ Rng(E.cache) = k.cache
             /\ Rng(E.etcd) = k.etcd /\ Rng(E.lease) = k.lease /\ Rng(E.mem) = k.mem /\ Rng(E.memc) = k.memc
-            /\ Rng(E.delEtcd) = (IF E.accBy.etcd THEN EtcdDeleted(k.name, EtcdUniverse) ELSE {})
-            /\ Rng(E.delMem) = (IF E.accBy.mem THEN MemDeleted(k.name, MemUniverse) ELSE {})
-            /\ Rng(E.delMemC) = (IF E.accBy.mem THEN MemCDeleted(k.name, MemCUniverse) ELSE {})
+            /\ Rng(E.delEtcd) = (IF E.inStore.etcd THEN EtcdDeleted(k.name, EtcdUniverse) ELSE {})
+            /\ Rng(E.delMem) = (IF E.inStore.mem THEN MemDeleted(k.name, MemUniverse) ELSE {})
+            /\ Rng(E.delMemC) = (IF E.inStore.mem THEN MemCDeleted(k.name, MemCUniverse) ELSE {})
 Consumed == TLCSet(7, IF TLCGet(7) < l THEN l ELSE TLCGet(7))
 TNext == TName /\ Consumed
 TSpec == TInit /\ [][TNext]_tvars
